@@ -88,9 +88,11 @@ def conclude(pid, tier, level, histories, failures, rerun, coverage, t0, assumpt
             continue
         unconfirmed_budget -= 1
         # confirm on an immediate re-run of the same history (a flaky rejection is not reported)
-        again = rerun(hist[:f.step + 1] if f.prop != "CRASH" else hist)
+        # (a threaded execution is re-run whole: cutting it at the failing call would remove the calls that ran beside it)
+        whole = f.prop == "CRASH" or (hist and isinstance(hist[0], dict) and hist[0].get("mode") == "par")
+        again = rerun(hist if whole else hist[:f.step + 1])
         again_first = vtrace.first_failures(again, pid)
-        replay_hist, replay_step = hist, (f.step if f.prop != "CRASH" else None)
+        replay_hist, replay_step = hist, (None if whole else f.step)
         if not again_first:
             # not reproduced on its own: the histories of one chunk run in ONE process, so state that the library keeps per
             # process (statics, tables initialised on first use) can reach it from the histories before it - run them again
